@@ -1,5 +1,5 @@
 // govc:pkg .
-// govc:bound second test: 4 queries with two or three analytic fields x 10 (thorough: 40) feeds, every column compared with the same field queried alone; first test: 14 analytic SELECT items x 40 (thorough: 160) random feeds of 12 rows over 3 partitions (NULL values included): each partition's output sequence interleaved vs. fed alone, EmitSync vs. Emit + synchronous sink, and lag / acc_sum / acc_count / acc_max / latest against their definitions
+// govc:bound third test: 4 WHERE-side analytic calls with OVER (PARTITION BY alone, with WHEN) x 10 (thorough: 40) feeds of 14 rows over 3 partitions: which rows of a partition pass, interleaved vs. fed alone; second test: 4 queries with two or three analytic fields x 10 (thorough: 40) feeds, every column compared with the same field queried alone; first test: 14 analytic SELECT items x 40 (thorough: 160) random feeds of 12 rows over 3 partitions (NULL values included): each partition's output sequence interleaved vs. fed alone, EmitSync vs. Emit + synchronous sink, and lag / acc_sum / acc_count / acc_max / latest against their definitions
 // govc:also C12
 // Bounded stand-in (NOT a proof) for the wiring above the state machines under contract (partition key derivation, engine
 // dispatch, projection): partitions must not influence each other and both API paths must agree.
@@ -299,6 +299,72 @@ func TestGovcBounded_analytic_fields_are_independent(t *testing.T) {
 		}
 	}
 	fmt.Printf("GOVC-BOUNDED-DONE analytic_fields_independent cases=%d failures=%d\n", cases, fails)
+	if fails > 0 {
+		t.Fail()
+	}
+}
+
+// analytic calls in WHERE with an OVER clause (PARTITION BY alone, WHEN alone, both): which rows of a partition pass must
+// not depend on the rows of other partitions interleaved in between
+func TestGovcBounded_where_analytic_partitions(t *testing.T) {
+	rng := rand.New(rand.NewSource(707))
+	wheres := []string{
+		"lag(v) OVER (PARTITION BY k) < v",
+		"lag(v) OVER (PARTITION BY k WHEN v > 0) < v",
+		"had_changed(true, v) OVER (PARTITION BY k WHEN v > 1)",
+		"v > lag(v, 1, 0) OVER (PARTITION BY k WHEN v > 0)",
+	}
+	cases, fails := 0, 0
+	for _, w := range wheres {
+		sql := "SELECT id, k FROM stream WHERE " + w
+		nfeeds := 10
+		if os.Getenv("GOVC_BOUND") == "thorough" {
+			nfeeds = 40
+		}
+		for feed := 0; feed < nfeeds; feed++ {
+			cases++
+			var rows []map[string]any
+			for i := 0; i < 14; i++ {
+				rows = append(rows, map[string]any{"id": i, "k": []string{"p", "q", "r"}[rng.Intn(3)], "v": float64(rng.Intn(5))})
+			}
+			inter, err := govcAnaRun(sql, rows, false)
+			if err != nil {
+				fails++
+				fmt.Printf("GOVC-BOUNDED-FAIL where_analytic where=`%s` feed=%d: %v\n", w, feed, err)
+				break
+			}
+			bad := ""
+			for _, part := range []string{"p", "q", "r"} {
+				var own []map[string]any
+				var idx []int
+				for i, r := range rows {
+					if r["k"] == part {
+						own = append(own, r)
+						idx = append(idx, i)
+					}
+				}
+				alone, err := govcAnaRun(sql, own, false)
+				if err != nil {
+					bad = err.Error()
+					break
+				}
+				for j, i := range idx {
+					if (inter[i] == nil) != (alone[j] == nil) {
+						bad = fmt.Sprintf("partition %s row id=%d (v=%v): passes interleaved=%v, alone=%v", part, i, rows[i]["v"], inter[i] != nil, alone[j] != nil)
+						break
+					}
+				}
+				if bad != "" {
+					break
+				}
+			}
+			if bad != "" {
+				fails++
+				fmt.Printf("GOVC-BOUNDED-FAIL where_analytic where=`%s` feed=%d: %s\n", w, feed, bad)
+			}
+		}
+	}
+	fmt.Printf("GOVC-BOUNDED-DONE where_analytic cases=%d failures=%d\n", cases, fails)
 	if fails > 0 {
 		t.Fail()
 	}
